@@ -186,6 +186,64 @@ CYCLES = {
   (ev/write c "hi") (ev/read a 2)
   (ev/close c) (ev/close a) (ev/close s)
   (os/rm path)'''),
+    # ---- resources released ONLY by finalisers: drop the last reference, then collect
+    "gc-only-running-child": ("proc", r'''
+  # still running, never waited, handle dropped at once: the finaliser must kill AND reap it
+  (os/spawn ["sleep" "100000"] :p)
+  (gccollect)'''),
+    "gc-only-running-child-pipes": ("proc", r'''
+  (os/spawn ["cat"] :p {:in :pipe :out :pipe :err :pipe})   # running (blocked on stdin), three pipes, all dropped
+  (when (odd? i) (gccollect))'''),
+    "gc-only-child-pipes-then-poll": ("proc", r'''
+  # the handle and its three pipe streams are finalised while the freshly spawned child may still be between fork and exec
+  # (holding copies of every descriptor); the loop polls right afterwards: no event may refer to a finalised stream (ASan)
+  (os/spawn ["cat"] :p {:in :pipe :out :pipe :err :pipe})
+  (gccollect)
+  (ev/sleep 0)'''),
+    "gc-only-mixed-children": ("proc", r'''
+  (os/spawn ["sleep" "100000"] :p)
+  (os/spawn ["true"] :p)
+  (def p (os/spawn ["sleep" "100000"] :p))
+  (os/proc-kill p)                       # killed but never waited: a zombie until the finaliser reaps it
+  (when (= 0 (% i 4)) (gccollect))'''),
+    "gc-only-sockets": ("net", r'''
+  (def [c a l] (connected-pair))         # client, server side and listener all dropped unclosed
+  (ev/write c "x")
+  (when (= 0 (% i 8)) (gccollect))'''),
+    "gc-only-unix-listener": ("net", r'''
+  (def path (string "/tmp/c20-gconly-" (os/getpid)))
+  (try (os/rm path) ([e] nil))
+  (net/listen :unix path)
+  (net/listen "127.0.0.1" "0" :datagram)
+  (when (= 0 (% i 8)) (gccollect))'''),
+    "gc-only-files": ("cheap", r'''
+  (os/open "/dev/null" :w)               # core/stream over a file
+  (file/open "/dev/null" :w)             # core/file (FILE*)
+  (def [r w] (os/pipe))
+  (when (= 0 (% i 16)) (gccollect))'''),
+    "gc-only-filewatch": ("cheap", r'''
+  (def c (ev/chan 4))
+  (def fw (filewatch/new c))
+  (filewatch/add fw "/tmp" :all)
+  (when (even? i) (filewatch/listen fw) (ev/sleep 0) (filewatch/unlisten fw))
+  (when (= 0 (% i 8)) (gccollect))'''),
+    "gc-only-channels": ("cheap", r'''
+  (def c (ev/chan 8)) (for k 0 8 (ev/give c (string "item" k)))
+  (def tc (ev/thread-chan 8)) (for k 0 8 (ev/give tc (string "item" k)))   # queued items are marshalled buffers (malloc)
+  (ev/lock) (ev/rwlock)
+  (when (= 0 (% i 16)) (gccollect))'''),
+    "gc-only-fiber-holding-stream": ("cheap", r'''
+  (def f (fiber/new (fn [] (def [r w] (os/pipe)) (def fl (os/open "/dev/null" :w)) (yield 1) (ev/close r) (ev/close w) (ev/close fl))))
+  (resume f)                             # unfinished coroutine: the only holder of three descriptors
+  (when (= 0 (% i 16)) (gccollect))'''),
+    "gc-only-thread-shared": ("thread", r'''
+  (def c (ev/thread-chan 2))
+  (def back (ev/thread-chan 2))
+  (thread-echo c back 2)
+  (ev/give c (ev/lock)) (ev/take back)         # shared objects whose last reference is dropped after a round trip
+  (ev/give c (ev/thread-chan 1)) (ev/take back)
+  (quiesce)
+  (when (= 0 (% i 4)) (gccollect))'''),
     # ---- two waiters of different kinds on one object
     "duplex-close-both": ("net", r'''
   (duplex-both :close)'''),
